@@ -123,8 +123,12 @@ def do_op(op, reads, uses, yield_now=lambda: None):
   kind = op[0]
   if kind == 'call':
     scope = SCOPES[op[2] % len(SCOPES)]
+    # different call shapes: which parameters Gin supplies (and hence records) differs per call,
+    # so a lost update of the shared operative record changes the final text
+    shape = op[3] % 3 if len(op) > 3 else 0
+    kwargs = [{}, {'a': 'by-caller'}, {'b': 'by-caller'}][shape]
     with gin.config_scope(scope or None):
-      PROBES[op[1] % N_PROBES]()
+      PROBES[op[1] % N_PROBES](**kwargs)
   elif kind == 'read':
     reads.append(gin.operative_config_str())
   elif kind == 'single':
@@ -271,7 +275,9 @@ def check_case(case):
 
 # ------------------------------------------------------------------------------ strategies
 _op = st.one_of(
-    st.tuples(st.just('call'), st.integers(0, N_PROBES - 1), st.integers(0, 3)).map(list),
+    st.tuples(st.just('call'), st.integers(0, N_PROBES - 1), st.integers(0, 3),
+              st.integers(0, 2)).map(list),
+    st.tuples(st.just('call'), st.just(0), st.just(1), st.integers(0, 2)).map(list),
     st.just(['read']),
     st.tuples(st.just('single'), st.integers(0, 1), st.integers(0, 1)).map(list),
     st.tuples(st.just('single'), st.just(0), st.integers(0, 1)).map(list))
